@@ -185,4 +185,13 @@ def run(ctx):
         if g != a:
             s3.disagree({"value": v}, a, g)
     s3.sample({"value": vals[5], "model": ans[5]})
-    return [s, s2, s3]
+    # instructions inside real programs: operands that name constants, symbols, labels, loop variables and macro
+    # parameters (shadowed and rebound), with and without suffix; per-instruction ISA oracle on the emitted bytes
+    import pipeline
+    run_ = pipeline.Runner(drv)
+    try:
+        s4 = pipeline.wild_stream(run_, "C01", tier, seed, oracles=(pipeline.oracle_c01,))
+        s4.name = "S4-wild-instr"
+    finally:
+        run_.close()
+    return [s, s2, s3, s4]
